@@ -515,3 +515,71 @@ def ab_wrappers(P):
             mv, ar = list(idx)[0]
             out[k] = {"form": list(forms)[0], "mv": mv, "args": ar}
     return out
+
+
+def structural_eq(P, key, adt):
+    """(ok, detail): does the PartialEq::eq `key` of struct `adt` answer true exactly when every field of the two operands is equal?
+    Derived impls pass by construction; a hand-written one is evaluated on its own paths over all 2^n "field i equal" combinations
+    (a condition that is not a comparison of the same field of both operands - a packed key, a subset of fields - makes it non-structural)."""
+    import itertools
+    from . import terms as T
+    b = P.fns.get(key)
+    if b is None:
+        return False, f"no {key}"
+    if b.get("derived"):
+        return True, "derived"
+    fields = [f["name"] for f in P.adt(adt)["variants"][0]["fields"]]
+    a0, a1 = ("obj", ("param", 0, b["locals"][1].get("n", "self"))), ("obj", ("param", 1, b["locals"][2].get("n", "a1")))
+
+    def strip(x):
+        while x[0] in ("refv", "discr", "cast") or (x[0] == "obj" and x not in (a0, a1)):
+            x = x[2] if x[0] == "cast" else x[1]
+        return x
+
+    def atom(t_):
+        xs = None
+        if t_[0] == "bin" and t_[1] == "Eq":
+            xs = (t_[2], t_[3])
+        elif t_[0] == "eq":
+            xs = (t_[1], t_[2])
+        elif t_[0] == "app" and t_[1].endswith("PartialEq>::eq") and len(t_[2]) == 2:
+            xs = t_[2]
+        if xs is None:
+            return None
+        x, y = strip(xs[0]), strip(xs[1])
+        for p_, q_ in ((x, y), (y, x)):
+            if p_[0] == "field" and q_[0] == "field" and p_[1] == a0 and q_[1] == a1 and p_[2] == q_[2] and p_[2] in fields:
+                return p_[2]
+        return None
+    try:
+        lv = T.Engine(P).tabulate(key)
+    except T.NotTabulable as e:
+        return False, f"not tabulable: {e}"
+    for asg in itertools.product((True, False), repeat=len(fields)):
+        val = dict(zip(fields, asg))
+        answers = []
+        for lf in lv:
+            ok = True
+            for t_, v in lf.cond:
+                neg = False
+                while t_[0] == "un" and t_[1] == "Not":
+                    t_, neg = t_[2], not neg
+                f = atom(t_)
+                if f is None:
+                    return False, f"a path depends on {T.show(t_)[:100]}, which is not a comparison of one field of both operands"
+                if (val[f] != neg) != bool(v):
+                    ok = False
+                    break
+            if not ok:
+                continue
+            r = lf.ret
+            if T.is_const(r):
+                answers.append(bool(r[1]))
+            else:
+                f = atom(r)
+                if f is None:
+                    return False, f"returns {T.show(r)[:100]}"
+                answers.append(val[f])
+        if not answers or any(a != all(asg) for a in answers):
+            return False, f"with fields equal = {val} it answers {answers}"
+    return True, "evaluated over all field-equality combinations"
